@@ -19,7 +19,8 @@ RULE = ('inputs: every truncation of generated valid messages (exhaustive per me
         'signature lengths, located through the reference encoder offset map) rewritten to 0, +-1, 2^31, 2^32-1, '
         'rest-of-buffer+-1, hostile signatures (zero-size array elements a() a{} a(()()), nesting to 254, unterminated '
         'containers, trailing a, unknown codes, empty variant signature) in the SIGNATURE header field with arbitrary body '
-        'bytes and inside body variants, and raw random bytes; entry points parseMessage, unmarshal and dataReceived of a '
+        'bytes and inside body variants, well-formed messages whose UNIX_FDS header claims up to 2^32-1 descriptors, and '
+        'raw random bytes; entry points parseMessage, unmarshal and dataReceived of a '
         'pre-authenticated protocol. oracle: the call returns or raises an Exception within %d+%d*n traced interpreter '
         'lines inside txdbus (sys.settrace step budget, no wall clock), a returned value has <= %d+%d*n nodes, and a '
         'fixed valid message still parses afterwards. Non-trivial = the input differs from the valid message it was '
@@ -253,6 +254,24 @@ def enum_length_sweep(tier):
                     yield {'kind': 'lie', 'msg': msg, 'little': little, 'which': which, 'lie': 'near-half', 'k': k}
 
 
+FD_COUNTS = [1, 3, 255, 2**16, 2**20, 2**22 + 1, 2**24, 2**31 - 1, 2**31, 2**32 - 1]
+
+
+def enum_fd_count(tier):
+    """A well-formed message whose UNIX_FDS header claims a number of descriptors that never arrived: the claim is four
+    bytes of input and must not buy more work than that."""
+    bodies = [('', []), ('s', ['x']), ('hi', [0, 7]), ('ahs', [[0, 1, 2], 'y']), ('a{sv}', [[['k', ['h', 5]]]])]
+    for mtype in (1, 2, 3, 4):
+        fields = {1: {1: '/a', 3: 'M'}, 2: {5: 7}, 3: {4: 'a.b', 5: 7}, 4: {1: '/a', 2: 'a.b', 3: 'S'}}[mtype]
+        for sig, trees in bodies:
+            for n in FD_COUNTS:
+                for little in (True, False):
+                    f = dict(fields)
+                    f[9] = n
+                    raw = R.encode_message(mtype, 3, f, sig, trees, little=little, fds=[])
+                    yield {'kind': 'raw', 'hex': raw.hex(), 'fd_count': n}
+
+
 def _fix_fields(case):
     if case['kind'] == 'hostile_sig':
         case = dict(case)
@@ -370,5 +389,8 @@ SUBCHECKS = [
                              % len(HOSTILE_SIGS)),
     Subcheck('length_sweep', run, classify_, enumerate=enum_length_sweep, shards={'quick': 4, 'thorough': 4},
              exhaustive_note='every length field of 2 fixed messages x 2 byte orders x 34 values around 2^32 and 2^31'),
+    Subcheck('fd_count', run, classify_, enumerate=enum_fd_count, shards={'quick': 4, 'thorough': 4},
+             exhaustive_note='4 message types x 5 bodies (with and without h arguments) x 10 claimed descriptor counts up '
+                             'to 2^32-1 x 2 byte orders'),
     Subcheck('atheris', run_any, classify_any, enumerate=enum_atheris, shards={'quick': 1, 'thorough': 8}),
 ]
